@@ -326,6 +326,48 @@ def utr3 (t : Coding) : Except Panic TF :=
     else if o = -1 then .ok (0, t.cdsStart)
     else .error .badOrient
 
+/-! ### histories of a coding transcript *and* its location chain
+
+Between two operations on the transcript a caller may change the orientation (or the start) of the
+transcript itself or of any feature above it (`g.Orient = feat.Reverse`, a contig's orientation …).
+`UTR5` / `UTR3` call `feat.BaseOrientationOf(t)` on every query, so the model keeps no orientation:
+the state carries the chain as it is now and the queries are computed from it. -/
+
+/-- heap, transcript, and the chain as it is now: the transcript as a feature (`node`: identity,
+    `Offset`, `Orient`) and `t.Loc` with its locations (`loc`) -/
+structure TcState where
+  h : Heap
+  t : Tx
+  node : Node
+  loc : Chain
+
+/-- one step: an operation on the exon set, or an assignment to a feature of the chain
+    (`k = 0`: the transcript, `k ≥ 1`: the `k`-th location above it) -/
+inductive TcOp
+  | tx (op : TxOp)
+  | chain (op : Biogo.Feat.ChainOp)
+
+def tcApply (st : TcState) : TcOp → TcState × Option Err
+  | .tx op =>
+    match txApply (st.h, st.t) op with
+    | ((h', t'), e) => ({ st with h := h', t := t' }, e)
+  | .chain op =>
+    let c := Biogo.Feat.chainApply (st.node :: st.loc) op
+    ({ st with node := c.headD st.node, loc := c.tail }, none)
+
+def tcInit (id : Nat) (node : Node) (loc : Chain) : TcState :=
+  { h := (txInit id).1, t := (txInit id).2, node, loc }
+
+def tcRun (st : TcState) (ops : List TcOp) : TcState := ops.foldl (fun st op => (tcApply st op).1) st
+
+/-- the coding transcript as `UTR5` / `CDS` / `UTR3` see it in this state -/
+def TcState.coding (st : TcState) (cdsStart cdsEnd : Int) : Coding :=
+  { node := st.node, loc := st.loc, cdsStart, cdsEnd, len := endOf (read st.h st.t.exons) }
+
+/-- what the three queries answer in this state -/
+def layout (st : TcState) (cdsStart cdsEnd : Int) : Except Panic TF × TF × Except Panic TF :=
+  (utr5 (st.coding cdsStart cdsEnd), cds (st.coding cdsStart cdsEnd), utr3 (st.coding cdsStart cdsEnd))
+
 /-! ### Gene.SetFeatures -/
 
 structure FeatIv where
